@@ -67,6 +67,24 @@ type Upstream struct {
 	WeightPct float64 `dials:"weight_pct" json:"weightPercent,omitempty"`
 }
 
+// Endpoint is pointed to from inside list elements.
+type Endpoint struct {
+	EndHost string `dials:"end_host"`
+	EndPort int32  `dials:"end-port"`
+}
+
+// Cluster is an element with a user-declared pointer to a struct and a value
+// struct that holds another one: every element must get sub-structs of its
+// own.
+type Cluster struct {
+	ClusterName string    `dials:"cluster_name"`
+	Primary     *Endpoint `dials:"primary-endpoint"`
+	Holder      struct {
+		Standby *Endpoint `dials:"stand_by"`
+		Rank    uint8     `dials:"rank-no"`
+	} `dials:"holder_box"`
+}
+
 // Probe is a one-leaf element.
 type Probe struct {
 	ProbeColor shape.Color `dials:"probe-color"`
@@ -233,13 +251,14 @@ func init() {
 	shape.RegisterBase("Route", reflect.TypeOf(Route{}))
 	shape.RegisterBase("Upstream", reflect.TypeOf(Upstream{}))
 	shape.RegisterBase("Probe", reflect.TypeOf(Probe{}))
+	shape.RegisterBase("Cluster", reflect.TypeOf(Cluster{}))
 }
 
 // Lists of dials-tagged structs.  Arrays ([2]Backend) are not here: they are
 // outside the property's quantifier, and on the current tree a pointerified
 // array field (*[2]Backend) is not recursed into by the transformer, so the
 // tags never reach its elements.
-var c13StructLists = []string{"[]Backend", "[]Backend", "[]Route", "[]Route", "[]Upstream", "[]Upstream", "[]Probe"}
+var c13StructLists = []string{"[]Backend", "[]Backend", "[]Route", "[]Route", "[]Upstream", "[]Upstream", "[]Probe", "[]Cluster", "[]Cluster", "[]Cluster"}
 
 // Slices whose element is a struct that unmarshals itself from text and that
 // all four formats can spell; see the finding keyed slice-of-text-struct.
@@ -467,7 +486,7 @@ type C13Doc struct {
 }
 
 var noteworthy = map[string]bool{"json_dur_int": true, "cue_dur_int": true, "set_dup": true, "yaml_flow_doc": true, "yaml_strq": true,
-	"toml_map_style": true, "toml_array_of_tables": true, "yaml_item_block": true, "elem_zero_omitted": true, "cue_struct_style": true, "yaml_empty_doc": true, "float_layout": true}
+	"toml_map_style": true, "toml_array_of_tables": true, "string_escapes": true, "duration_text": true, "yaml_item_block": true, "elem_zero_omitted": true, "cue_struct_style": true, "yaml_empty_doc": true, "float_layout": true}
 
 func rapidPick(t *rapid.T, notes map[string]bool) pick {
 	return func(label string, n int) int {
@@ -601,6 +620,8 @@ func hasMinInt64(v reflect.Value) bool {
 				return true
 			}
 		}
+	case reflect.Pointer:
+		return !v.IsNil() && hasMinInt64(v.Elem())
 	case reflect.Slice, reflect.Array:
 		for i := 0; i < v.Len(); i++ {
 			if hasMinInt64(v.Index(i)) {
@@ -747,6 +768,12 @@ func facts(T reflect.Type, nodes []shape.Node, d shape.Data) leafFacts {
 						f.labels["leaf:in-embedded-struct"] = true
 						f.embPresent[n.Parent] = append(f.embPresent[n.Parent], n.SF.Name)
 					}
+				}
+			}
+			if t.Kind() == reflect.Slice && t.Elem() == reflect.TypeOf(Cluster{}) {
+				f.labels["leaf:struct-list-with-pointer-member"] = true
+				if shape.MakeValue(t, seed, opts).Len() >= 2 {
+					f.labels["leaf:struct-list-with-pointer-member:>=2-elements"] = true
 				}
 			}
 			if isStructList(t) {
@@ -1017,7 +1044,8 @@ var c13Assumptions = []string{
 	"a decoy key (the dials name of an absent leaf, written in the documents of those formats where the field has a name of its own) must leave the leaf unset: with a named format tag none of the four libraries falls back to another name, unknown keys are ignored by all of them, and sibling names are unique",
 	"the documents of a history are for one type; types come from reflect.StructOf, which returns the identical type for identical shapes, so state kept per type inside a decoder package may also carry over from earlier cases of the run: no case assumes a type it is the first to use",
 	"integers stay within the int64 range (TOML cannot spell larger ones) and 64-bit signed values are never math.MinInt64 (Cue v0.6.0 refuses it: \"value was rounded up\"); floats are finite and written in shortest round-trip form, with a fraction or exponent in TOML (go-toml refuses an integer literal for a float field)",
-	"strings, map keys and set elements are plain ASCII words: quoting rules of the third-party parsers are not the subject",
+	"strings, map keys and set elements are plain ASCII words: quoting rules of the third-party parsers are not the subject; escape sequences are used only where JSON and Cue string syntax agree (\\uXXXX, \\/) and decode to the same text",
+	"a time.Time token is never written with escapes in JSON: time.Time.UnmarshalJSON of the Go standard library parses the bytes between the quotes without unescaping them (go.dev/issue/47353), which no dials code is involved in; in Cue it is (Cue evaluates the literal first)",
 	"durations are written as time.Duration.String() text, or integer nanoseconds in JSON and Cue only; times are RFC 3339 UTC with second precision (a native date-time in TOML, an unquoted timestamp or a string in YAML)",
 	"a named duration scalar (type Wait time.Duration) is only ever an integer: none of the four decoders accepts duration text for it on the unmodified tree, which makes it the same as the named integer Timeout already in the vocabulary",
 	"no []byte, arrays other than the named array of durations, interfaces, or user pointer leaves other than pointers to the text-unmarshalable collections; null is not used (TOML has none)",
@@ -1031,9 +1059,9 @@ var c13Assumptions = []string{
 func TestC13Agree(t *testing.T) {
 	vrt.Check(t, vrt.Prop[C13Case]{
 		ID: "C13", Name: "agree",
-		Rule: "config types (depth<=3, <=5 fields per struct; nested and pointer structs; scalars, named scalars, durations, times, net.IP, Stamp, Color, slices, string-keyed maps, sets, collections of those, non-empty lists of dials-tagged structs whose tags differ from the field names, named collections that unmarshal themselves from text (a slice of structs, a slice of strings, a map, and pointers to them; always spelled as text) named slices, maps and arrays of durations and pointers to them, and embedded structs by value and by pointer (2-5 tagged leaves, at the root and inside nested structs; untagged: leaves promoted into the parent in JSON, Cue and YAML with FlattenAnonymous, nested under the lower-cased type name in plain YAML and under the type name in TOML; with a dials tag and sometimes a differently named format tag on the embedding field: nested under that name everywhere except YAML with FlattenAnonymous, which still promotes)) with a dials tag on every other field and a differently named json/yaml/toml/cue tag on about a quarter of them, a third of those with options (omitempty, flow); " +
+		Rule: "config types (depth<=3, <=5 fields per struct; nested and pointer structs; scalars, named scalars, durations, times, net.IP, Stamp, Color, slices, string-keyed maps, sets, collections of those, non-empty lists of dials-tagged structs whose tags differ from the field names (one element type has a user-declared pointer to a struct and a value struct holding another, so each element must get sub-structs of its own), named collections that unmarshal themselves from text (a slice of structs, a slice of strings, a map, and pointers to them; always spelled as text) named slices, maps and arrays of durations and pointers to them, and embedded structs by value and by pointer (2-5 tagged leaves, at the root and inside nested structs; untagged: leaves promoted into the parent in JSON, Cue and YAML with FlattenAnonymous, nested under the lower-cased type name in plain YAML and under the type name in TOML; with a dials tag and sometimes a differently named format tag on the embedding field: nested under that name everywhere except YAML with FlattenAnonymous, which still promotes)) with a dials tag on every other field and a differently named json/yaml/toml/cue tag on about a quarter of them, a third of those with options (omitempty, flow); " +
 			"a history of one to three documents for the same type (independent key subsets and values, so later ones omit keys earlier ones had), decoded one after the other by every decoder (JSON, YAML, TOML, Cue and YAML with FlattenAnonymous), with one Decoder value per format for the whole history or a fresh one per document; some absent leaves appear under their dials name in the formats where the field has its own name (decoy key, must stay unset); " +
-			"non-zero defaults; any subset of leaf keys present, struct keys sometimes present with nothing below; the data is rendered by hand-written emitters to JSON, YAML, TOML and Cue (random layout: block/flow, tables/inline/dotted, quoting, key order, durations as text or integer nanoseconds) and the texts are stored in the case; " +
+			"non-zero defaults; any subset of leaf keys present, struct keys sometimes present with nothing below; the data is rendered by hand-written emitters to JSON, YAML, TOML and Cue (random layout: block/flow, tables/inline/dotted, quoting, key order, durations as text or integer nanoseconds; duration text either as time.Duration prints it or split into microseconds and nanoseconds with the unit written \u00b5s, \u03bcs or us; in JSON keys and string tokens and in Cue string values about half of the tokens spell some or all characters as \\uXXXX escapes) and the texts are stored in the case; " +
 			"oracle, per document on its own: each decoder's value equals the pointerified value built from that document's data (absent key = nil, whatever earlier documents held), the four values stacked over the defaults agree pairwise and equal the reference stacking model; at the end no value handed out earlier has changed; " +
 			"non-trivial = in some document a leaf at nesting depth >= 2 is present, at least one leaf key is absent and a duration, set or text-unmarshalable leaf is present; distinct = distinct case JSON",
 		Assumptions: c13Assumptions,
